@@ -17,9 +17,14 @@ from .. import genops
 from .c13 import render as render_api, cfg as gen_cfg
 
 
+FLOATS = {(0, 0, 32, 64): "2.5", (0, 0, 0, 63): "0.5", (0, 0, 122, 68): "1000.0"}
+
+
 def lit32(bs, rng, size):
     v = bs[0] | bs[1] << 8 | bs[2] << 16 | bs[3] << 24
     sv = v - (1 << 32) if v >= 1 << 31 else v
+    if tuple(bs[:4]) in FLOATS and size == 4:
+        return rng.choice([FLOATS[tuple(bs[:4])], FLOATS[tuple(bs[:4])], str(sv)])
     return rng.choice([str(sv), hex(v), str(sv)])
 
 
@@ -66,6 +71,64 @@ def to_text(p, ops, rng):
         pre = "x2 " if ins["flags"] == 1 else ("x4 " if ins["flags"] == 2 else "")
         L.append(pre + ops[ins["op"]]["name"] + " " + ", ".join(slot[a] for a in ins["args"]))
     return L
+
+
+def literal_form(p, ops):
+    """the same program with every constant written in place: the constant table is then what
+    the parser builds -- one entry per distinct (operand size, value) in order of first use,
+    sized by the operand of the opcode that uses it.  None when a constant is unused twice
+    over or the form is ambiguous."""
+    import copy
+    q = copy.deepcopy(p)
+    newc, remap, key_of = [], {}, {}
+    for ins in q["insns"]:
+        o = ops[ins["op"]]
+        sizes = o["dest"] + o["src"]
+        for j, a in enumerate(ins["args"]):
+            if 16 <= a < 24:
+                cst = p["c"][a - 16]
+                osz = sizes[j] * (2 if ins["flags"] == 1 else 4 if ins["flags"] == 2 else 1)
+                psz = sizes[j]          # the parser sizes the constant by the opcode's own operand size
+                w = 4 if psz <= 4 else 8
+                if (4 if cst["size"] <= 4 else 8) != w:
+                    return None         # a 4-byte pattern cannot be spelled as an 8-byte literal
+                val = tuple(cst["bytes"][:w])
+                k = (psz, val)
+                if k not in key_of:
+                    if len(newc) >= 8:
+                        return None
+                    key_of[k] = len(newc)
+                    newc.append(dict(size=psz, bytes=list(val)))
+                ins["args"][j] = 16 + key_of[k]
+    q["c"] = newc
+    return q
+
+
+def to_text_literal(p, ops, rng):
+    """like to_text, constants spelled where they are used"""
+    head = to_text(dict(p, c=[], insns=[]), ops, rng)
+    slot = {}
+    for i in range(len(p["d"])): slot[i] = "d%d" % (i + 1)
+    for i in range(len(p["s"])): slot[4 + i] = "s%d" % (i + 1)
+    for i in range(len(p["a"])): slot[12 + i] = "a%d" % (i + 1)
+    for i in range(len(p["p"])): slot[24 + i] = "p%d" % (i + 1)
+    for i in range(len(p["t"])): slot[32 + i] = "t%d" % (i + 1)
+    out = head
+    spelled = {}     # one spelling per constant: "-1" and "0xffffffff" are different 64-bit values for
+                     # the parser's sharing rule even where the operand is one byte wide
+    for ins in p["insns"]:
+        pre = "x2 " if ins["flags"] == 1 else ("x4 " if ins["flags"] == 2 else "")
+        args = []
+        for a in ins["args"]:
+            if 16 <= a < 24:
+                cst = p["c"][a - 16]
+                if a not in spelled:
+                    spelled[a] = lit32(cst["bytes"], rng, cst["size"]) if cst["size"] <= 4 else lit64(cst["bytes"], rng)
+                args.append(spelled[a])
+            else:
+                args.append(slot[a])
+        out.append(pre + ops[ins["op"]]["name"] + " " + ", ".join(args))
+    return out
 
 
 def fmt_line(line, rng):
@@ -118,8 +181,15 @@ def run(ctx):
     os.makedirs(d, exist_ok=True)
     pf = os.path.join(ctx.work, "progs.ndjson")
     with open(pf, "w") as f:
-        for i, p in enumerate(progs):
-            lines = [fmt_line(l, rng) for l in to_text(p, ops, rng)]
+        allp = []
+        for p in progs:
+            allp.append((p, False))
+            q = literal_form(p, ops)
+            if q is not None and any(16 <= a < 24 for ins in q["insns"] for a in ins["args"]):
+                allp.append((q, True))
+        progs = [x[0] for x in allp]
+        for i, (p, lit) in enumerate(allp):
+            lines = [fmt_line(l, rng) for l in (to_text_literal(p, ops, rng) if lit else to_text(p, ops, rng))]
             style = rng.choice(["lf", "crlf", "lf_nofinal", "crlf_nofinal"])
             eol = "\r\n" if style.startswith("crlf") else "\n"
             txt = eol.join(lines) + (eol if style in ("lf", "crlf") else "")
